@@ -155,6 +155,24 @@ mod verif_methods {
 		let x = letter(); kani::assume(!(x == 0.0 && x.is_sign_negative())); h = [h[1], h[2], x]; let out = m.next(&x); assert!(out == med3(h[0], h[1], h[2]));
 	}
 
+	// a cheaper witness for the sorted-buffer bookkeeping: window 3, five inputs over the four values {1, 2, 3, 5} (duplicates, no zeros)
+	fn quad() -> ValueType {
+		let k: u8 = kani::any();
+		match k % 4 { 0 => 1.0, 1 => 2.0, 2 => 3.0, _ => 5.0 }
+	}
+	#[kani::proof]
+	#[kani::unwind(4)]
+	fn vk_smm_l3_quad() {
+		let x0 = quad();
+		let mut m = SMM::new(3, &x0).unwrap();
+		let mut h = [x0; 3];
+		let x = quad(); h = [h[1], h[2], x]; let out = m.next(&x); assert!(out == med3(h[0], h[1], h[2]));
+		let x = quad(); h = [h[1], h[2], x]; let out = m.next(&x); assert!(out == med3(h[0], h[1], h[2]));
+		let x = quad(); h = [h[1], h[2], x]; let out = m.next(&x); assert!(out == med3(h[0], h[1], h[2]));
+		let x = quad(); h = [h[1], h[2], x]; let out = m.next(&x); assert!(out == med3(h[0], h[1], h[2]));
+		let x = quad(); h = [h[1], h[2], x]; let out = m.next(&x); assert!(out == med3(h[0], h[1], h[2]));
+	}
+
 	// ---- crossing detectors: loop-free over all finite f64 (differences may overflow to +-inf, never NaN): complete ----
 	#[kani::proof]
 	fn vk_cross_above_under() {
